@@ -55,6 +55,9 @@ var (
 	verifFile      *os.File
 	// owner package of every live analyzerAction (set at "abegin", dropped at "collect")
 	verifOwner sync.Map // *analyzerAction -> string
+	// owner package of the analyzer handler running on a goroutine (set at "start"/"rootclose",
+	// dropped at "done"): a handler may still log after "collect" dropped verifOwner
+	verifGoOwner sync.Map // goroutine id -> string
 )
 
 func init() {
@@ -113,6 +116,8 @@ func verifName(a action) (pkg, an string) {
 	case *analyzerAction:
 		owner := "?"
 		if o, ok := verifOwner.Load(a); ok {
+			owner = o.(string)
+		} else if o, ok := verifGoOwner.Load(verifGoid()); ok {
 			owner = o.(string)
 		}
 		if a.Analyzer == nil {
@@ -380,6 +385,14 @@ func verifEvent(ev string, args ...any) {
 	}
 	rec.Run = verifRun.Load()
 	rec.G = verifGoid()
+	if rec.An != "" {
+		switch ev {
+		case "start", "rootclose":
+			verifGoOwner.Store(rec.G, rec.Pkg)
+		case "done":
+			verifGoOwner.Delete(rec.G)
+		}
+	}
 	// The sequence number is taken last, immediately before returning to
 	// the instrumented code (argument rendering above only reads state
 	// owned by the calling goroutine).
